@@ -466,19 +466,17 @@ impl RuntypeUUID {
                     let type_with_args_count = ctx.type_with_args_names.len();
                     let final_suffix =
                         Self::type_with_args_str(type_with_args_count, &self.type_arguments, ctx);
-                    let final_name = format!("{}{}", base, final_suffix);
-                    for (uuid, name) in ctx.type_with_args_names.iter() {
-                        let has_same_name = name == &final_name;
-                        if has_same_name {
-                            dbg!(&uuid);
-                            dbg!(&self);
-                            dbg!(uuid == self);
-                            panic!(
-                                "Internal error: type with args name conflict: {} vs {}",
-                                uuid.diag_print(),
-                                self.diag_print()
-                            );
-                        }
+                    let mut final_name = format!("{}{}", base, final_suffix);
+                    // two different instantiations can print the same argument text (a user type called like a
+                    // built-in, `Box<Function>` next to `Box<() => void>`): number the later one
+                    let mut n = type_with_args_count;
+                    while ctx
+                        .type_with_args_names
+                        .values()
+                        .any(|name| name == &final_name)
+                    {
+                        final_name = format!("{}_instance_{}", base, n);
+                        n += 1;
                     }
 
                     ctx.type_with_args_names
